@@ -39,6 +39,7 @@ type GenOpts struct {
 	GroupBridge      bool // a consumer -> group -> member -> chain of singletons family whose only ordering path runs through the group
 	StandIns         bool // a registration replaces a stand-in that was registered under its identity some calls earlier and removed right before
 	PtrIn            bool // parameter objects taken by pointer
+	PtrErr           bool // error results declared with a concrete pointer type
 	BuildModes       bool // Build / BuildWithContext (cancellable, cancelled afterwards) / BuildWithOptions (timeout)
 	SameOuts         bool // a multi-return constructor that hands back one instance under two declared types
 	SigTwins         bool // a second registration with the very signature of another one (shared analysis), other lifetime, other group/name
@@ -47,7 +48,7 @@ type GenOpts struct {
 
 func FullOpts() GenOpts {
 	return GenOpts{MinRegs: 1, MaxRegs: 9, Multi: true, Out: true, OutGroupFields: true, Instance: true, Void: true, As: true, MultiAs: true,
-		Groups: true, Keys: true, MultiGroup: true, OptionalMissing: true, Builtins: true, Err: true, Iface: true, MaxDeps: 3, NilOuts: true, AltImpl: true, Drops: true, PreBuild: true, NamedVoid: true, VoidAnyLife: true, EmbedIn: true, SliceSvc: true, Ghosts: true, SigTwins: true, GroupBridge: true, SameOuts: true, BuildModes: true, StandIns: true, PtrIn: true}
+		Groups: true, Keys: true, MultiGroup: true, OptionalMissing: true, Builtins: true, Err: true, Iface: true, MaxDeps: 3, NilOuts: true, AltImpl: true, Drops: true, PreBuild: true, NamedVoid: true, VoidAnyLife: true, EmbedIn: true, SliceSvc: true, Ghosts: true, SigTwins: true, GroupBridge: true, SameOuts: true, BuildModes: true, StandIns: true, PtrIn: true, PtrErr: true}
 }
 
 // NeverType is a concrete type id that generated configurations never provide.
@@ -491,6 +492,7 @@ func GenConfig(t *rapid.T, o GenOpts) *Config {
 			r.PtrIn = o.PtrIn && r.UseIn && rapid.IntRange(0, 2).Draw(t, "ptrIn") == 0
 			if o.Err {
 				r.HasErr = rapid.IntRange(0, 2).Draw(t, "hasErr") == 0
+				r.PtrErr = o.PtrErr && r.HasErr && rapid.IntRange(0, 3).Draw(t, "ptrErr") == 0
 			}
 		}
 		if o.AltImpl && (r.Form == FormPlain || r.Form == FormOut) && len(r.As) == 0 {
@@ -636,7 +638,7 @@ func (g *genState) genSigTwin(t *rapid.T, regs []Reg) (Reg, bool) {
 			nextID = r.ID + 1
 		}
 	}
-	tw := Reg{ID: nextID, Form: src.Form, HasErr: src.HasErr, UseIn: src.UseIn, PtrIn: src.PtrIn, IsTwin: true, TwinOf: src.ID,
+	tw := Reg{ID: nextID, Form: src.Form, HasErr: src.HasErr, PtrErr: src.PtrErr, UseIn: src.UseIn, PtrIn: src.PtrIn, IsTwin: true, TwinOf: src.ID,
 		Outs: append([]OutSpec(nil), src.Outs...), Deps: append([]DepSpec(nil), src.Deps...)}
 	// lifetimes the dependencies allow: anything long-lived must not depend on a scoped service
 	scopedDep := false
